@@ -129,7 +129,9 @@ def ensure_facts(repo=REPO, variant='default', extra=(), quiet=False):
             return view, info
         with open(DRIVER, 'rb') as fh:
             dh = hashlib.sha1(fh.read()).hexdigest()[:10]
-        store = os.path.join(CACHE, 'store-%s-%s' % (variant, dh))
+        # one store per analysed tree location: cargo's freshness is per package path, so a store shared between /repo and a scratch copy
+        # (DFVERIF_REPO) would hand the scratch copy's newer fact files to a later scan of /repo whose artifacts cargo still finds fresh
+        store = os.path.join(CACHE, 'store-%s-%s-%s' % (variant, dh, hashlib.sha1(os.path.realpath(repo).encode()).hexdigest()[:8]))
         for old in glob.glob(os.path.join(CACHE, 'store-%s-*' % variant)):
             if old != store:
                 shutil.rmtree(old, ignore_errors=True)
